@@ -186,6 +186,7 @@ fn variants_of(t: &Sx, out: &mut Vec<u64>) {
 }
 
 pub fn gen(a: &Args) -> Vec<String> {
+    crate::eg::BIG_SYMMETRY.store(false, std::sync::atomic::Ordering::Relaxed);
     let mut cases = vec![];
     for c in 0..a.count {
         let mut rng = Rng::new(a.seed ^ 0x5151, c);
